@@ -453,6 +453,21 @@ def run_shuffled(case):
       got = freeze(restarted.sample())
       require_same(got, reference[start + k], 'streaming_restart',
                    f'start_round_num={start}, sample #{k} (round {start + k})')
+    if case.get('used_before'):
+      # The dataset object was in use before its stream is asked for: all its
+      # clients were fetched by id, in an order of the caller's choosing (a
+      # round-indexed sampler, an evaluation over named clients).  The seeded
+      # stream is that of a freshly opened dataset.
+      fd = be.open()
+      ids = sorted(fd.client_ids())
+      k = case['used_before'] % len(ids)
+      list(fd.get_clients(ids[k:][::-1] + ids[:k]))
+      fd.get_client(ids[-1])
+      used = client_samplers.UniformShuffledClientSampler(
+          fd.shuffled_clients(case['buffer'], case['stream_seed']), cohort)
+      for r in range(start + rounds):
+        require_same(freeze(used.sample()), reference[r], 'streaming_on_a_dataset_used_before',
+                     f'round {r}')
     if case.get('shared_fd'):
       # Both client streams come from ONE dataset object and are advanced in
       # turn (an evaluation sampler next to the training sampler, a restarted
@@ -482,6 +497,8 @@ def shuffled_labels(case):
     ls.append('crosses_pass_boundary')
   if case['start'] * case['cohort'] >= n:
     ls.append('restart_beyond_first_pass')
+  if case.get('used_before'):
+    ls.append('stream_of_a_dataset_whose_clients_were_fetched_before')
   return ls
 
 
@@ -613,7 +630,8 @@ def shuffled_strategy(draw, tier):
           'start': draw(st.one_of(st.integers(0, 6 if tier == 'quick' else 12),
                                   st.integers(1, 3))),
           'rounds': draw(st.integers(1, 4)),
-          'shared_fd': draw(st.booleans())}
+          'shared_fd': draw(st.booleans()),
+          'used_before': draw(st.sampled_from([0, 0, 1, 2, 5]))}
 
 
 # ------------------------------------------------- restart in a new process
